@@ -27,6 +27,7 @@ func init() {
 	pure.Register("C14", "withCount", c14Count)
 	pure.Register("C14", "withKeys", c14Keys)
 	pure.Register("C14", "withMatrix", c14Matrix)
+	pure.Register("C14", "withMatrix-key-shapes", c14MatrixKeys)
 	pure.Register("C14", "index-set-fixed-after-admission", c14Update)
 	pure.Register("C14", "present-but-empty-forms", c14EmptyForms)
 }
@@ -369,6 +370,75 @@ func c14Matrix(c *pure.Ctx) {
 		if accepted(v, &execution.ParallelismSpec{WithMatrix: bad, CompletionStrategy: execution.AllSuccessful}) {
 			c.Violate("admission", fmt.Sprintf("withMatrix=%v accepted", bad))
 		}
+	}
+}
+
+// c14MatrixKeys: the matrix enumeration above varies values and sizes over three plain keys; this
+// one varies the keys over every character class admission accepts (letters, digits, '-', '_',
+// keys that differ only in '-' against '_', keys that are a prefix of another), every subset of
+// up to three of them, each axis with its own values so that a value landing under the wrong
+// key is visible. Same oracles: exact product, distinct identities, and the created Pod gets
+// ${task.index_matrix.<key>} of its own index for every key.
+func c14MatrixKeys(c *pure.Ctx) {
+	v := newValidator()
+	keys := []string{"go-version", "go_version", "goversion", "go", "-", "_", "0", "9-a_b"}
+	vals := func(i int) []string { return []string{fmt.Sprintf("v%da", i), fmt.Sprintf("v%db", i)} }
+	for mask := 1; mask < 1<<len(keys); mask++ {
+		if c.Expired() {
+			return
+		}
+		var sel []int
+		for i := range keys {
+			if mask&(1<<i) != 0 {
+				sel = append(sel, i)
+			}
+		}
+		if len(sel) > 3 {
+			continue
+		}
+		m := map[string][]string{}
+		var sk, args []string
+		for _, i := range sel {
+			m[keys[i]] = vals(i)
+			sk = append(sk, keys[i])
+		}
+		sort.Strings(sk)
+		for _, k := range sk {
+			args = append(args, "${task.index_matrix."+k+"}")
+		}
+		var want []string
+		var prod func(i int, cur []string)
+		prod = func(i int, cur []string) {
+			if i == len(sk) {
+				want = append(want, strings.Join(cur, ","))
+				return
+			}
+			for _, val := range m[sk[i]] {
+				prod(i+1, append(cur, sk[i]+"="+val))
+			}
+		}
+		prod(0, nil)
+		render := func(x execution.ParallelIndex) string {
+			ks := make([]string, 0, len(x.MatrixValues))
+			for k := range x.MatrixValues {
+				ks = append(ks, k)
+			}
+			sort.Strings(ks)
+			var parts []string
+			for _, k := range ks {
+				parts = append(parts, k+"="+x.MatrixValues[k])
+			}
+			return strings.Join(parts, ",")
+		}
+		expect := func(x execution.ParallelIndex) []string {
+			var out []string
+			for _, k := range sk {
+				out = append(out, x.MatrixValues[k])
+			}
+			return out
+		}
+		spec := &execution.ParallelismSpec{WithMatrix: m, CompletionStrategy: execution.AllSuccessful}
+		checkSpec(c, v, fmt.Sprintf("withMatrix=%v", m), spec, want, render, args, expect)
 	}
 }
 
